@@ -130,6 +130,8 @@ void
 LeastSquares<RealType>::setEstimateSize(const size_t & estimateSize)
 {
   estimateSize_ = int(estimateSize);
+  // keep the design matrix consistent with the new number of unknowns when rows are already allocated
+  J_.resize(Y_.rows(), estimateSize_);
   Ac_ = Matrix::Identity(estimateSize_, estimateSize_);
   Bc_ = Vector::Zero(estimateSize_);
   JtJ_ = Matrix::Zero(estimateSize_, estimateSize_);
